@@ -36,6 +36,8 @@ const (
 	MaxProvidersNum = 10 // maximum total number of the providers to request
 
 	MaxRepeatedFrequency = uint64(1) << 62 // maximum repeated frequency; keeps the next batch height within int64
+
+	MaxDepositBitLen = 128 // maximum bit length of a deposit amount; keeps the sum of deposits of a binding representable
 )
 
 // the service name only accepts alphanumeric characters, _ and -, beginning with alpha character
@@ -876,6 +878,12 @@ func ValidateServiceDeposit(deposit sdk.Coins) error {
 
 	if deposit.IsAnyNegative() {
 		return sdkerrors.Wrap(sdkerrors.ErrInvalidCoins, "invalid deposit")
+	}
+
+	for _, coin := range deposit {
+		if coin.Amount.BigInt().BitLen() > MaxDepositBitLen {
+			return sdkerrors.Wrap(sdkerrors.ErrInvalidCoins, "deposit too large")
+		}
 	}
 
 	return nil
